@@ -52,6 +52,9 @@ def result_props(op, obs):
         exc = obs.get("exc") if isinstance(obs, dict) else None
         # any other exception: a file written by save from a self-contained IR was not accepted
         return set(RELOAD_PROPS.get(exc, {"C01", "C17"}))
+    if op["name"] == "readmsg":
+        exc = obs.get("exc") if isinstance(obs, dict) else None
+        return {"C02", "C09"} if exc == "ReferenceIsACopy" else {"C02"}
     if op["name"] == "loadfault":
         return {"C09", "C17"} if op.get("fault") in ("dangling", "ill-typed", "dup-uuid") else {"C17"}
     return {op_prop(op["name"])}
@@ -87,7 +90,7 @@ class Graph:
 
 
 def args_of(op):
-    return {k: v for k, v in op.items() if k not in ("res", "alts", "branches")}
+    return {k: v for k, v in op.items() if k not in ("res", "alts", "branches")}   # (msg and fwd stay: replays need them)
 
 
 def norm_res(op, res):
@@ -148,6 +151,10 @@ class Violation:
         bits = [op["name"]]
         if "r" in op:
             bits.append(op["r"])
+        if op["name"] == "readmsg":     # forward references are a finding of their own (known_findings.json)
+            bits.append(op.get("fwd", "-"))
+            if self.kind == "result" and isinstance(self.observed, dict):
+                bits.append(str(self.observed.get("exc")))
         return "%s:%s" % (self.kind, "/".join(bits))
 
     def to_json(self):
